@@ -11,6 +11,7 @@ mod drv_corpus;
 mod drv_decode;
 mod drv_fields;
 mod msgen;
+mod rerun;
 mod special;
 mod special_msm;
 mod drv_frame;
@@ -57,6 +58,7 @@ fn main() {
         ("record", "text") => drv_text::rec_text(&a, &mut out),
         ("record", "serde") => drv_serde::rec_serde(&a, &mut out),
         ("record", "corpus") => drv_corpus::rec_corpus(&a, &mut out),
+        ("rerun", "events") => rerun::rerun(&a, &mut out),
         ("debug", "extremes") => drv_build::debug_extremes(&a),
         ("replay", "frames") => drv_frame::replay_frames(&a, &mut out),
         ("replay", "stream") => drv_frame::replay_stream(&a, &mut out),
